@@ -51,6 +51,18 @@ def small_scenarios(max_pts=3, objs=(0, 1, 2)):
                     out.append(dict(pts=[dict(s=i + 1, t=i + 1, o=[o1[i], o2[i]], x=[i]) for i in range(n)],
                                     dir="min", weights=[1, 2], bound=[], mode=mode, priority=prio,
                                     max_iter=[], unknown_ok=False, outside_fragment=False, time_stops=True, nvars=1))
+    # solvers that may answer "unknown" / logics outside the arithmetic fragment (the Check*Unknown /
+    # *OutsideFragment actions; TLC's action coverage showed that no other scenario enables them)
+    for n in (0, 1, 2):
+        for timing in partitions(n):
+            for unknown_ok, outside in ((True, False), (False, True), (True, True)):
+                out.append(dict(pts=[dict(s=i + 1, t=timing[i] + 1, o=[0], x=[timing[i]]) for i in range(n)],
+                                dir="none", weights=[], bound=[], mode="sat", priority="pareto",
+                                max_iter=[], unknown_ok=unknown_ok, outside_fragment=outside, time_stops=True, nvars=1))
+                for o in itertools.product((0, 1), repeat=n):
+                    out.append(dict(pts=[dict(s=i + 1, t=timing[i] + 1, o=[o[i]], x=[timing[i]]) for i in range(n)],
+                                    dir="min", weights=[1], bound=[], mode="incremental", priority="pareto",
+                                    max_iter=[], unknown_ok=unknown_ok, outside_fragment=outside, time_stops=True, nvars=1))
     for i, s in enumerate(out):
         s["id"] = i + 1
     return out
